@@ -323,6 +323,21 @@ def run_part(prop, seed, budget):
         er = _out(lambda: graphql.graphql_sync(graphql_schema(query=[cs, ci, cp]), "{ cs ci cp }"))
         if er[0] != "ok" or er[1].errors or er[1].data != {"cs": "BLUE", "ci": "ONE", "cp": "X"}:
             _fail(failures, "mixin-enums", "crash:" + er[1].split(":")[0] if er[0] == "crash" else "enum-not-published-by-name", got=(er[1].data, [str(e) for e in er[1].errors or []]) if er[0] == "ok" else er)
+        # an Enum default of an argument / of an input field: the omitted argument reaches the resolver as the member, the schema prints
+        from dataclasses import dataclass as _dc
+        seen = []
+        @_dc
+        class EInp:
+            c: CP = CP.X
+            n: int = 1
+        def edef(v: CP = CP.X) -> CP:
+            seen.append(v); return v
+        def einp(i: EInp) -> CP:
+            seen.append(i.c); return i.c
+        n += 1; distinct.add(case_hash("c7-gqlenumdefault")); hist["enum-defaults"] += 1
+        dr = _out(lambda: (lambda sch: (graphql.graphql_sync(sch, "{ edef einp(i: {}) }"), graphql.print_schema(sch)))(graphql_schema(query=[edef, einp])))
+        if dr[0] != "ok" or dr[1][0].errors or dr[1][0].data != {"edef": "X", "einp": "X"} or seen != [CP.X, CP.X] or "= X" not in dr[1][1]:
+            _fail(failures, "enum-defaults", "crash:" + dr[1].split(":")[0] if dr[0] == "crash" else "enum-default-not-published-as-the-member", got=(dr[1][0].data, [str(e) for e in dr[1][0].errors or []], seen) if dr[0] == "ok" else dr)
         if r[0] != "ok" or r[1].errors or r[1].data != want:
             _fail(failures, "overridden-resolvers", "executed-query-differs-from-the-attributes-of-the-object", got=(r[1].data, r[1].errors) if r[0] == "ok" else r, expected=want)
     return failures, n, distinct, hist
